@@ -2,7 +2,11 @@ package main
 
 import (
 	"fmt"
+	"os"
 	"strings"
+	"sync"
+	"syscall"
+	"time"
 
 	lua "github.com/yuin/gopher-lua"
 	"verifh/lib"
@@ -38,8 +42,8 @@ type limOpt struct {
 // big*: the Lua call stack and the registry are out of the way, the limits on nesting come first
 var limOpts = []limOpt{
 	{"default", lua.Options{}},
-	{"big-fixed", lua.Options{CallStackSize: 1500, RegistrySize: 1 << 14}},
-	{"big-auto", lua.Options{CallStackSize: 1500, RegistrySize: 1 << 14, MinimizeStackMemory: true}},
+	{"big-fixed", lua.Options{CallStackSize: 1500, RegistrySize: 1 << 12}},
+	{"big-auto", lua.Options{CallStackSize: 1500, RegistrySize: 1 << 12, MinimizeStackMemory: true}},
 	{"big-growing", lua.Options{CallStackSize: 1500, RegistrySize: 512, RegistryMaxSize: 1 << 15, RegistryGrowStep: 256}},
 }
 
@@ -88,6 +92,9 @@ var limitKinds = []string{"index", "newindex", "add", "concat", "unm", "eq", "lt
 	"gsub", "sort", "iter", "resume", "wrap", "luarec", "unpack", "unpack-args", "rep"}
 
 func short(s string, n int) string {
+	if i := strings.Index(s, "\nstack traceback:"); i >= 0 {
+		s = s[:i]
+	}
 	if len(s) > n {
 		return s[:n] + "..."
 	}
@@ -140,6 +147,48 @@ func judgeHandler(ok string, runs int, delivered, raw string, frames int, again 
 	return "", nil
 }
 
+// goCase is one Go-side verdict; jobs (one interpreter state each) produce lists of them in parallel, the
+// writer gets them in the fixed order of the jobs
+type goCase struct {
+	class      string
+	input, obs map[string]any
+	what       string
+	kf         []string
+	prefix     string
+}
+
+type caseSink struct{ list []goCase }
+
+func (c *caseSink) add(class string, input, obs map[string]any, what string, kf []string, prefix string) {
+	c.list = append(c.list, goCase{class, input, obs, what, kf, prefix})
+}
+
+func runJobs(w *lib.Writer, jobs []func(*caseSink)) {
+	sinks := make([]caseSink, len(jobs))
+	var wg sync.WaitGroup
+	sem := make(chan struct{}, 8)
+	for i := range jobs {
+		wg.Add(1)
+		sem <- struct{}{}
+		go func(i int) {
+			defer wg.Done()
+			defer func() { <-sem }()
+			defer func() {
+				if r := recover(); r != nil {
+					sinks[i].add("wave5-job", map[string]any{"api": "job", "job": i}, map[string]any{}, short(fmt.Sprintf("Go panic escaped: %v", r), 300), nil, "wave-5 job")
+				}
+			}()
+			jobs[i](&sinks[i])
+		}(i)
+	}
+	wg.Wait()
+	for _, sk := range sinks {
+		for _, c := range sk.list {
+			addGoCase(w, c.class, c.input, c.obs, c.what, c.kf, c.prefix)
+		}
+	}
+}
+
 func addGoCase(w *lib.Writer, class string, input map[string]any, observed map[string]any, what string, kf []string, failPrefix string) {
 	observed["failed"] = what != ""
 	observed["what"] = what
@@ -159,123 +208,130 @@ func guarded(f func() string) (what string) {
 	return f()
 }
 
-// handlerAtLimits: Lua-side xpcall in three contexts, and the Go-side protected calls with handlers
+// handlerAtLimits: Lua-side xpcall in three contexts, and the Go-side protected calls with handlers. One
+// state per (options, context) runs all kinds one after the other (what an earlier failure left behind is
+// part of what the next one meets).
 func handlerAtLimits(w *lib.Writer) {
 	contexts := []struct{ name, call string }{
 		{"top", `return probe(%q)`},
 		{"coroutine", `return in_coroutine(probe, %q)`},
 		{"metamethod", `return in_metamethod(probe, %q)`},
+		{"pcall-gohandler", ""}, {"pcall-luahandler", ""}, {"callbyparam-handler", ""},
 	}
+	var jobs []func(*caseSink)
+	defer func() { runJobs(w, jobs) }()
 	for _, o := range limOpts {
-		for _, kind := range limitKinds {
-			if o.name == "big-fixed" && (kind == "resume" || kind == "wrap") {
-				continue // 200 threads with a large fixed registry each: memory only, nothing new
-			}
-			for _, cx := range contexts {
-				var kf []string
-				obs := map[string]any{}
-				what := guarded(func() string {
-					L := lua.NewState(o.opt)
-					defer L.Close()
-					if err := L.DoString(limitPrelude); err != nil {
-						return "prelude: " + err.Error()
-					}
-					top := L.GetTop()
-					if err := L.DoString(fmt.Sprintf(cx.call, kind)); err != nil {
-						return "the error left DoString: " + short(err.Error(), 200)
-					}
-					var vals []string
-					if cx.name == "metamethod" {
-						vals = strings.Split(L.Get(-1).String(), "\x01")
-					} else {
-						for i := top + 1; i <= L.GetTop(); i++ {
-							vals = append(vals, L.Get(i).String())
-						}
-					}
-					if len(vals) != 6 {
-						return fmt.Sprintf("probe returned %d values", len(vals))
-					}
-					runs, frames := 0, 0
-					fmt.Sscan(vals[1], &runs)
-					fmt.Sscan(vals[4], &frames)
-					obs["limit"], obs["runs"], obs["frames"] = limitClass(vals[3]), runs, frames
-					var wh string
-					wh, kf = judgeHandler(vals[0], runs, vals[2], vals[3], frames, vals[5])
-					if d := lua.VerifDepthSnapshot(L); wh == "" && (d.Sp != 0 || d.NCCalls != 0 || d.ResumeDepth != 0 || d.PanicMode != "traceback" || !d.CurrentIsL) {
-						wh = fmt.Sprintf("state after the chunk: %+v", d)
-					}
-					return wh
-				})
-				addGoCase(w, "limit-handler-"+cx.name, map[string]any{"api": "handler-at-limit", "kind": kind, "context": cx.name, "options": o.name},
-					obs, what, kf, fmt.Sprintf("xpcall with a handler around a function that runs into a limit (%s, %s, options %s)", kind, cx.name, o.name))
-			}
-			// Go-side: PCall with a Go handler, PCall with a Lua handler, CallByParam with Handler
-			for _, style := range []string{"pcall-gohandler", "pcall-luahandler", "callbyparam-handler"} {
-				var kf []string
-				obs := map[string]any{}
-				what := guarded(func() string {
-					L := lua.NewState(o.opt)
-					defer L.Close()
+		for _, cx := range contexts {
+			o, cx := o, cx
+			jobs = append(jobs, func(sink *caseSink) {
+				L := lua.NewState(o.opt)
+				setup := guarded(func() string {
 					if err := L.DoString(limitPrelude + `
 hruns = 0
 function lua_handler(m) hruns = hruns + 1; hseen = levels(); return "H:" .. tostring(m) end`); err != nil {
 						return "prelude: " + err.Error()
 					}
-					mk := func() lua.LValue {
-						if err := L.CallByParam(lua.P{Fn: L.GetGlobal("mk"), NRet: 1, Protect: true}, lua.LString(kind)); err != nil {
-							panic(err)
-						}
-						f := L.Get(-1)
-						L.Pop(1)
-						return f
-					}
-					rawErr := L.CallByParam(lua.P{Fn: mk(), NRet: lua.MultRet, Protect: true})
-					if rawErr == nil {
-						return "the failing function returned no error"
-					}
-					raw := rawErr.(*lua.ApiError).Object.String()
-					L.SetTop(0)
-					goRuns := 0
-					gh := L.NewFunction(func(L *lua.LState) int {
-						goRuns++
-						L.Push(lua.LString("H:" + L.Get(1).String()))
-						return 1
-					})
-					before := lua.VerifDepthSnapshot(L)
-					var err error
-					switch style {
-					case "pcall-gohandler":
-						L.Push(mk())
-						err = L.PCall(0, lua.MultRet, gh)
-					case "pcall-luahandler":
-						L.Push(mk())
-						err = L.PCall(0, lua.MultRet, L.GetGlobal("lua_handler").(*lua.LFunction))
-					default:
-						err = L.CallByParam(lua.P{Fn: mk(), NRet: 1, Protect: true, Handler: gh})
-					}
-					after := lua.VerifDepthSnapshot(L)
-					if err == nil {
-						return "the protected call returned no error"
-					}
-					runs := goRuns
-					if style == "pcall-luahandler" {
-						runs = int(lua.LVAsNumber(L.GetGlobal("hruns")))
-					}
-					delivered := "false"
-					if err.(*lua.ApiError).Object.String() == "H:"+raw {
-						delivered = "true"
-					}
-					obs["limit"], obs["runs"] = limitClass(raw), runs
-					var wh string
-					wh, kf = judgeHandler("false", runs, delivered, raw, 3, "true")
-					if wh == "" && before != after {
-						wh = fmt.Sprintf("bookkeeping before the failed call %+v, after %+v", before, after)
-					}
-					return wh
+					return ""
 				})
-				addGoCase(w, "limit-handler-"+style, map[string]any{"api": "handler-at-limit", "kind": kind, "context": style, "options": o.name},
-					obs, what, kf, fmt.Sprintf("Go-side protected call with a handler around a function that runs into a limit (%s, %s, options %s)", kind, style, o.name))
-			}
+				for _, kind := range limitKinds {
+					if o.name == "big-fixed" && (kind == "resume" || kind == "wrap") {
+						continue // 200 threads with a large fixed registry each: memory only, nothing new
+					}
+					var kf []string
+					obs := map[string]any{}
+					what := setup
+					if what == "" && cx.call != "" {
+						what = guarded(func() string {
+							L.SetTop(0)
+							if err := L.DoString(fmt.Sprintf(cx.call, kind)); err != nil {
+								return "the error left DoString: " + short(err.Error(), 200)
+							}
+							var vals []string
+							if cx.name == "metamethod" {
+								vals = strings.Split(L.Get(-1).String(), "\x01")
+							} else {
+								for i := 1; i <= L.GetTop(); i++ {
+									vals = append(vals, L.Get(i).String())
+								}
+							}
+							L.SetTop(0)
+							if len(vals) != 6 {
+								return fmt.Sprintf("probe returned %d values", len(vals))
+							}
+							runs, frames := 0, 0
+							fmt.Sscan(vals[1], &runs)
+							fmt.Sscan(vals[4], &frames)
+							obs["limit"], obs["runs"], obs["frames"] = limitClass(vals[3]), runs, frames
+							var wh string
+							wh, kf = judgeHandler(vals[0], runs, vals[2], vals[3], frames, vals[5])
+							if d := lua.VerifDepthSnapshot(L); wh == "" && (d.Sp != 0 || d.NCCalls != 0 || d.ResumeDepth != 0 || d.PanicMode != "traceback" || !d.CurrentIsL) {
+								wh = fmt.Sprintf("state after the chunk: %+v", d)
+							}
+							return wh
+						})
+					} else if what == "" {
+						// Go-side: PCall with a Go handler, PCall with a Lua handler, CallByParam with Handler
+						what = guarded(func() string {
+							L.SetTop(0)
+							mk := func() lua.LValue {
+								if err := L.CallByParam(lua.P{Fn: L.GetGlobal("mk"), NRet: 1, Protect: true}, lua.LString(kind)); err != nil {
+									panic(err)
+								}
+								f := L.Get(-1)
+								L.Pop(1)
+								return f
+							}
+							rawErr := L.CallByParam(lua.P{Fn: mk(), NRet: lua.MultRet, Protect: true})
+							if rawErr == nil {
+								return "the failing function returned no error"
+							}
+							raw := rawErr.(*lua.ApiError).Object.String()
+							L.SetTop(0)
+							goRuns := 0
+							gh := L.NewFunction(func(L *lua.LState) int {
+								goRuns++
+								L.Push(lua.LString("H:" + L.Get(1).String()))
+								return 1
+							})
+							hr0 := int(lua.LVAsNumber(L.GetGlobal("hruns")))
+							before := lua.VerifDepthSnapshot(L)
+							var err error
+							switch cx.name {
+							case "pcall-gohandler":
+								L.Push(mk())
+								err = L.PCall(0, lua.MultRet, gh)
+							case "pcall-luahandler":
+								L.Push(mk())
+								err = L.PCall(0, lua.MultRet, L.GetGlobal("lua_handler").(*lua.LFunction))
+							default:
+								err = L.CallByParam(lua.P{Fn: mk(), NRet: 1, Protect: true, Handler: gh})
+							}
+							after := lua.VerifDepthSnapshot(L)
+							if err == nil {
+								return "the protected call returned no error"
+							}
+							runs := goRuns
+							if cx.name == "pcall-luahandler" {
+								runs = int(lua.LVAsNumber(L.GetGlobal("hruns"))) - hr0
+							}
+							delivered := "false"
+							if err.(*lua.ApiError).Object.String() == "H:"+raw {
+								delivered = "true"
+							}
+							obs["limit"], obs["runs"] = limitClass(raw), runs
+							var wh string
+							wh, kf = judgeHandler("false", runs, delivered, raw, 3, "true")
+							if wh == "" && before != after {
+								wh = fmt.Sprintf("bookkeeping before the failed call %+v, after %+v", before, after)
+							}
+							return wh
+						})
+					}
+					sink.add("limit-handler-"+cx.name, map[string]any{"api": "handler-at-limit", "kind": kind, "context": cx.name, "options": o.name},
+						obs, what, kf, fmt.Sprintf("protected call with a handler around a function that runs into a limit (%s, %s, options %s)", kind, cx.name, o.name))
+				}
+				L.Close()
+			})
 		}
 	}
 }
@@ -294,49 +350,70 @@ func handlerLadder(w *lib.Writer) {
 		{"tostring", `local k = 0; local o; o = setmetatable({}, {__tostring = function() k = k + 1; local kk = k; return step(function() return tostring(o) end, kk) end}); return function() return tostring(o) end`},
 	}
 	const prelude = `
-failed, bad, deepest = 0, {}, 0
+failed, bad, deepest, deepest_failed = 0, {}, 0, 0
 function step(next_level, k)
   if k > deepest then deepest = k end
   local runs = 0
   local ok, e = xpcall(next_level, function(m) runs = runs + 1; return "H:" .. tostring(m) end)
   if not ok then
     failed = failed + 1
+    if k > deepest_failed then deepest_failed = k end
     if runs ~= 1 or type(e) ~= "string" or e:sub(1, 2) ~= "H:" then bad[#bad + 1] = "level " .. k .. ": handler ran " .. runs .. " times, xpcall returned " .. tostring(e):sub(1, 60) end
+    if RETHROW then error(e, 0) end
   end
   return "v"
 end`
+	var jobs []func(*caseSink)
+	defer func() { runJobs(w, jobs) }()
 	for _, o := range limOpts[1:] {
 		for _, ld := range ladders {
 			if o.name == "big-fixed" && ld.name == "wrap" {
 				continue
 			}
-			obs := map[string]any{}
-			what := guarded(func() string {
-				L := lua.NewState(o.opt)
-				defer L.Close()
-				if err := L.DoString(prelude); err != nil {
-					return "prelude: " + err.Error()
-				}
-				if err := L.DoString("local run = (function() " + ld.src + " end)(); local ok, e = pcall(run); return tostring(ok), tostring(e)"); err != nil {
-					return "the error left DoString: " + short(err.Error(), 200)
-				}
-				failed := int(lua.LVAsNumber(L.GetGlobal("failed")))
-				deepest := int(lua.LVAsNumber(L.GetGlobal("deepest")))
-				bad := L.GetGlobal("bad").(*lua.LTable)
-				obs["failed_xpcalls"], obs["deepest"] = failed, deepest
-				if failed == 0 {
-					return fmt.Sprintf("the ladder never reached a limit (deepest level %d)", deepest)
-				}
-				if bad.Len() > 0 {
-					return fmt.Sprintf("%d of %d failed xpcalls broke the handler rule; first: %s", bad.Len(), failed, bad.RawGetInt(1).String())
-				}
-				if d := lua.VerifDepthSnapshot(L); d.Sp != 0 || d.NCCalls != 0 || d.ResumeDepth != 0 || d.PanicMode != "traceback" || !d.CurrentIsL {
-					return fmt.Sprintf("state after the chunk: %+v", d)
-				}
-				return ""
-			})
-			addGoCase(w, "limit-ladder", map[string]any{"api": "handler-ladder", "kind": ld.name, "options": o.name}, obs, what, nil,
-				fmt.Sprintf("xpcall entered at every nesting depth up to the limit (%s, options %s)", ld.name, o.name))
+			for _, rethrow := range []bool{false, true} {
+				o, ld, rethrow := o, ld, rethrow
+				jobs = append(jobs, func(sink *caseSink) {
+					obs := map[string]any{}
+					var kf []string
+					what := guarded(func() string {
+						L := lua.NewState(o.opt)
+						defer L.Close()
+						L.SetGlobal("RETHROW", lua.LBool(rethrow))
+						if err := L.DoString(prelude); err != nil {
+							return "prelude: " + err.Error()
+						}
+						if err := L.DoString("local run = (function() " + ld.src + " end)(); local ok, e = pcall(run); return tostring(ok), tostring(e)"); err != nil {
+							return "the error left DoString: " + short(err.Error(), 200)
+						}
+						failed := int(lua.LVAsNumber(L.GetGlobal("failed")))
+						deepest := int(lua.LVAsNumber(L.GetGlobal("deepest")))
+						deepestFailed := int(lua.LVAsNumber(L.GetGlobal("deepest_failed")))
+						bad := L.GetGlobal("bad").(*lua.LTable)
+						obs["failed_xpcalls"], obs["deepest"] = failed, deepest
+						if failed == 0 {
+							return fmt.Sprintf("the ladder never reached a limit (deepest level %d)", deepest)
+						}
+						if rethrow && failed < deepestFailed {
+							return fmt.Sprintf("the error was rethrown at every level, but only %d of %d xpcalls failed", failed, deepestFailed)
+						}
+						if bad.Len() > 0 {
+							first := bad.RawGetInt(1).String()
+							// listed (C05-8): only the xpcall that was itself entered at the limit (the innermost one that
+							// failed; calling its function already overflows) did not run its handler
+							if bad.Len() == 1 && strings.HasPrefix(first, fmt.Sprintf("level %d: handler ran 0 times", deepestFailed)) && strings.Contains(first, "C stack overflow") {
+								kf = []string{"C05-8"}
+							}
+							return fmt.Sprintf("%d of %d failed xpcalls broke the handler rule; first: %s", bad.Len(), failed, first)
+						}
+						if d := lua.VerifDepthSnapshot(L); d.Sp != 0 || d.NCCalls != 0 || d.ResumeDepth != 0 || d.PanicMode != "traceback" || !d.CurrentIsL {
+							return fmt.Sprintf("state after the chunk: %+v", d)
+						}
+						return ""
+					})
+					sink.add("limit-ladder", map[string]any{"api": "handler-ladder", "kind": ld.name, "rethrow": rethrow, "options": o.name}, obs, what, kf,
+						fmt.Sprintf("xpcall entered at every nesting depth up to the limit (%s, rethrow %v, options %s)", ld.name, rethrow, o.name))
+				})
+			}
 		}
 	}
 }
@@ -382,8 +459,8 @@ var histEvents = []histEvent{
 	{"pcall-in-callback", 260, `string.gsub("ab", "%w", function() pcall(error, "x"); pcall(coroutine.wrap(function() error("y") end)) end)`, ""},
 	{"registry-overflow", 60, `pcall(unpack, big); pcall(function() return select("#", unpack(big)) end)`, ""},
 	{"registry-overflow-in-coroutine", 60, `pcall(coroutine.wrap(function() return unpack(big) end))`, "big-fixed"},
-	{"results-overflow-resumer", 60, `pcall(function(...) return coroutine.wrap(function() return unpack(big, 1, HALF) end)() end, unpack(big, 1, HALF))`, "big-fixed"},
-	{"results-overflow-resumer-error", 60, `pcall(function(...) return coroutine.wrap(function() error({unpack(big, 1, 10)}) end)() end, unpack(big, 1, ROOM - 8))`, "big-fixed"},
+	{"results-overflow-resumer", 60, `pcall(function() local function take(...) return coroutine.wrap(function() return unpack(big, 1, 400) end)() end; return take(unpack(big, 1, ROOM - 200)) end)`, "big-fixed"},
+	{"results-overflow-resumer-error", 60, `pcall(function() local function take(...) return coroutine.wrap(function() error({unpack(big, 1, 10)}) end)() end; return take(unpack(big, 1, ROOM - 40 + i % 48)) end)`, "big-fixed"},
 	{"string-too-large", 260, `pcall(string.rep, "x", 1e10)`, ""},
 	{"argument-errors", 260, `pcall(setmetatable, 1, 2); pcall(next, {}, "nokey"); pcall(string.rep); pcall(ipairs); pcall(select, 0)`, ""},
 	{"load-errors", 260, `pcall(loadstring("x = = 1")); load(function() error("reader") end); pcall(require, "no_such_module_w5"); pcall(dofile, "/nonexistent/w5.lua")`, ""},
@@ -394,7 +471,7 @@ var histEvents = []histEvent{
 	{"ccalls-overflow-pcall", 3, `pcall(mk("index")); pcall(mk("gsub")); pcall(mk("sort")); pcall(mk("pcall")); pcall(mk("concat"))`, ""},
 	{"ccalls-overflow-xpcall", 3, `xpcall(mk("index"), function(m) return m end); xpcall(mk("iter"), function(m) error(m) end); xpcall(mk("tostring"), function(m) return mk("add")() end)`, ""},
 	{"callstack-overflow", 3, `pcall(mk("luarec")); xpcall(mk("luarec"), function(m) return m end); pcall(mk("call"))`, ""},
-	{"resume-overflow", 2, `pcall(mk("wrap")); pcall(mk("resume")); xpcall(mk("wrap"), function(m) return m end)`, "big-fixed"},
+	{"resume-overflow", 1, `pcall(mk("wrap")); pcall(mk("resume")); xpcall(mk("wrap"), function(m) return m end)`, "big-fixed"},
 	{"error-through-150-wraps", 2, `local function lv(n) if n == 0 then error("bottom") end; return coroutine.wrap(lv)(n - 1) end; pcall(lv, 150)`, "big-fixed"},
 	{"error-through-150-metamethods", 3, `local t; t = setmetatable({}, {__index = function(_, k) if k == 150 then error("bottom") end; return t[k + 1] end}); pcall(function() return t[1] end)`, ""},
 	{"error-through-100-pcalls-rethrown", 3, `local function lv(n) if n == 0 then error("bottom") end; local ok, e = pcall(lv, n - 1); error(e, 0) end; pcall(lv, 100)`, ""},
@@ -402,32 +479,37 @@ var histEvents = []histEvent{
 
 const gaugePrelude = `
 -- how deep each mechanism nests before the interpreter refuses, and how many values the registry takes
+function room()
+  local lo, hi = 0, #big
+  while lo < hi do local mid = math.floor((lo + hi + 1) / 2); if pcall(function() return select("#", unpack(big, 1, mid)) end) then lo = mid else hi = mid - 1 end end
+  return lo
+end
+function cogauge() local d = 0; local function f() d = d + 1; return (coroutine.resume(coroutine.create(f))) end; f(); return d end
 function gauges()
   local g = {}
   do local d = 0; local function f() d = d + 1; return (pcall(f)) end; pcall(f); g[#g + 1] = d end
   do local d = 0; local t; t = setmetatable({}, {__index = function(_, k) d = d + 1; return t[k + 1] end}); pcall(function() return t[1] end); g[#g + 1] = d end
   do local d = 0; local function f() d = d + 1; return 1 + f() end; pcall(f); g[#g + 1] = d end
   do local d = 0; local function f() d = d + 1; return (string.gsub("a", "a", f)) end; pcall(f); g[#g + 1] = d end
-  if COGAUGES then
-    do local d = 0; local function f() d = d + 1; return (coroutine.resume(coroutine.create(f))) end; f(); g[#g + 1] = d end
-    do local d = 0; local function f() d = d + 1; return coroutine.wrap(f)() end; pcall(f); g[#g + 1] = d end
-  end
-  do local lo, hi = 0, #big
-    while lo < hi do local mid = math.floor((lo + hi + 1) / 2); if pcall(function() return select("#", unpack(big, 1, mid)) end) then lo = mid else hi = mid - 1 end end
-    g[#g + 1] = lo
-  end
+  if COGAUGES then g[#g + 1] = cogauge() end
+  g[#g + 1] = room()
   return g
 end
 function measure(event, n)
-  local g0, s0, bad = gauges(), snap(), nil
-  for i = 1, n do
-    local s = snap()
-    event(i)
-    local s2 = snap()
-    if s2 ~= s and not bad then bad = "event " .. i .. ": " .. s .. " -> " .. s2 end
+  local g, s, bad = {}, {}, nil
+  for phase = 1, 2 do -- both measurements from the same instruction: same registers in use
+    g[phase], s[phase] = table.concat(gauges(), ","), snap()
+    if phase == 1 then
+      ROOM = room()
+      for i = 1, n do
+        local s = snap()
+        event(i)
+        local s2 = snap()
+        if s2 ~= s and not bad then bad = "event " .. i .. ": " .. s .. " -> " .. s2 end
+      end
+    end
   end
-  local s1, g1 = snap(), gauges()
-  return table.concat(g0, ","), table.concat(g1, ","), s0, s1, bad or ""
+  return g[1], g[2], s[1], s[2], bad or ""
 end
 `
 
@@ -443,83 +525,106 @@ func snapString(L *lua.LState) string {
 	return fmt.Sprintf("frames=%d ccalls=%d resumes=%d panic=%s current=%v", d.Sp, d.NCCalls, d.ResumeDepth, d.PanicMode, d.CurrentIsL)
 }
 
+// bookkeepingAfter: one state per (options, context); the events follow one another on it, every event
+// between two measurements.
 func bookkeepingAfter(w *lib.Writer, tier string, seed uint64) {
-	r := lib.NewRand(seed ^ 0x5c05)
+	var jobs []func(*caseSink)
+	defer func() { runJobs(w, jobs) }()
 	for oi, o := range limOpts {
-		for ei, ev := range histEvents {
-			if ev.skipO == o.name {
+		for ci, cx := range histContexts {
+			oi, o, ci, cx := oi, o, ci, cx
+			// quick tier: default options at the top level and in one more context, the other options in one
+			// context each, chosen by the seed (thorough: all)
+			if tier != "thorough" && ci != (oi+int(seed%4))%len(histContexts) && !(oi == 0 && ci == 0) {
 				continue
 			}
-			// every event under the default options in every context; under the other options in one
-			// context chosen by the seed (all of them in the thorough tier)
-			for ci, cx := range histContexts {
-				if cx.name == ev.skipO {
-					continue
-				}
-				if tier != "thorough" && oi > 0 && ci != (ei+oi+int(seed%4))%len(histContexts) {
-					continue
-				}
-				if tier != "thorough" && oi == 0 && ci > 0 && ev.n < 100 && ci != 1+(ei+int(seed%3))%3 {
-					continue // the expensive events: two contexts
-				}
-				n := ev.n
-				if n >= 200 {
-					n += r.Intn(8) // 260..267: beyond every limit
-				}
-				cogauges := strings.Contains(ev.src, "coroutine") || strings.Contains(ev.src, `mk("wrap")`) || (ei+ci)%5 == 0
-				obs := map[string]any{}
-				src := ""
-				what := guarded(func() string {
-					L := lua.NewState(o.opt)
-					defer L.Close()
-					L.SetGlobal("snap", L.NewFunction(func(L *lua.LState) int { L.Push(lua.LString(snapString(L))); return 1 }))
-					if cogauges {
-						L.SetGlobal("COGAUGES", lua.LTrue)
-					}
-					if err := L.DoString(limitPrelude + gaugePrelude); err != nil {
+			jobs = append(jobs, func(sink *caseSink) {
+				r := lib.NewRand(seed ^ 0x5c05 ^ uint64(oi*16+ci))
+				L := lua.NewState(o.opt)
+				L.SetGlobal("snap", L.NewFunction(func(L *lua.LState) int { L.Push(lua.LString(snapString(L))); return 1 }))
+				setup := guarded(func() string {
+					if err := L.DoString(limitPrelude + gaugePrelude + "CO0 = cogauge()"); err != nil {
 						return "prelude: " + err.Error()
 					}
-					// ROOM: what the registry takes at this point; HALF: more than half of it
-					if err := L.DoString(`local g = gauges(); ROOM = g[#g]; HALF = math.floor(ROOM * 0.6)`); err != nil {
-						return "prelude: " + err.Error()
+					return ""
+				})
+				for _, ev := range histEvents {
+					if ev.skipO == o.name || ev.skipO == cx.name {
+						continue
 					}
-					fresh := lua.VerifDepthSnapshot(L)
-					src = "local EVENT, N = function(i) " + ev.src + " end, " + fmt.Sprint(n) + "\n" + cx.call
-					if err := L.DoString(src); err != nil {
-						return "the history left DoString: " + short(err.Error(), 300)
+					n := ev.n
+					if n >= 200 {
+						n += r.Intn(8) // 260..267: beyond every limit
+						if tier != "thorough" && !(oi == 0 && ci == 0) && strings.Contains(ev.src, "coroutine") {
+							n -= 55 // 205..212: beyond the limits on nesting (one thread per event: cost)
+						}
 					}
-					if L.GetTop() != 5 {
-						return fmt.Sprintf("measure returned %d values: %s", L.GetTop(), short(L.Get(-1).String(), 200))
+					if o.opt.RegistryMaxSize > 0 && ev.name == "registry-overflow-in-coroutine" {
+						n = 4 // a registry growing in small steps to its maximum: quadratic
 					}
-					g0, g1, s0, s1, bad := L.Get(1).String(), L.Get(2).String(), L.Get(3).String(), L.Get(4).String(), L.Get(5).String()
-					obs["gauges"], obs["n"] = g0, n
-					L.SetTop(0)
-					switch {
-					case bad != "":
-						return "bookkeeping changed by one contained error: " + bad
-					case s0 != s1:
-						return "bookkeeping before the history: " + s0 + ", after: " + s1
-					case g0 != g1:
-						return fmt.Sprintf("nesting depths / registry room (pcall, metamethod, recursion, callback%s, registry) before the history: %s, after %d contained errors: %s",
-							map[bool]string{true: ", resume, wrap", false: ""}[cogauges], g0, n, g1)
+					// the nesting depth of resumes is measured around every event in the thorough tier, around the
+					// whole sequence in the quick tier (200 threads per measurement)
+					cogauges := tier == "thorough" && o.name != "big-fixed" && (strings.Contains(ev.src, "coroutine") || strings.Contains(ev.src, `mk("wrap")`))
+					obs := map[string]any{}
+					src := ""
+					what := setup
+					tEv := time.Now()
+					if what == "" {
+						what = guarded(func() string {
+							L.SetTop(0)
+							L.SetGlobal("COGAUGES", lua.LBool(cogauges))
+							fresh := lua.VerifDepthSnapshot(L)
+							src = "local EVENT, N = function(i) " + ev.src + " end, " + fmt.Sprint(n) + "\n" + cx.call
+							if err := L.DoString(src); err != nil {
+								return "the history left DoString: " + short(err.Error(), 300)
+							}
+							if L.GetTop() != 5 {
+								return fmt.Sprintf("measure returned %d values: %s", L.GetTop(), short(L.Get(-1).String(), 200))
+							}
+							g0, g1, s0, s1, bad := L.Get(1).String(), L.Get(2).String(), L.Get(3).String(), L.Get(4).String(), L.Get(5).String()
+							obs["gauges"], obs["n"] = g0, n
+							L.SetTop(0)
+							switch {
+							case bad != "":
+								return "bookkeeping changed by one contained error: " + bad
+							case s0 != s1:
+								return "bookkeeping before the history: " + s0 + ", after: " + s1
+							case g0 != g1:
+								return fmt.Sprintf("nesting depths / registry room (pcall, metamethod, recursion, callback%s, registry) before the history: %s, after %d contained errors: %s",
+									map[bool]string{true: ", resume", false: ""}[cogauges], g0, n, g1)
+							}
+							if after := lua.VerifDepthSnapshot(L); after != fresh {
+								return fmt.Sprintf("state before the chunk %+v, after %+v", fresh, after)
+							}
+							return ""
+						})
 					}
-					if after := lua.VerifDepthSnapshot(L); after != fresh {
-						return fmt.Sprintf("state before the chunk %+v, after %+v", fresh, after)
+					if os.Getenv("C05_TIMING") == "2" {
+						fmt.Fprintf(os.Stderr, "  %s %s %s: %v\n", o.name, cx.name, ev.name, time.Since(tEv))
 					}
-					// all later behaviour: a fixed follow-up on the same state
-					if err := L.DoString(`local co = coroutine.wrap(function(a) local b = coroutine.yield(a + 1); return b * 2 end)
+					sink.add("history-"+cx.name, map[string]any{"api": "bookkeeping-after-history", "event": ev.name, "context": cx.name, "options": o.name, "n": n, "src": src},
+						obs, what, nil, fmt.Sprintf("bookkeeping after %d contained errors of kind %q (%s, options %s)", n, ev.name, cx.name, o.name))
+				}
+				// all later behaviour: a fixed follow-up on the same state
+				what := setup
+				if what == "" {
+					what = guarded(func() string {
+						if err := L.DoString(`local c1 = cogauge(); if c1 ~= CO0 then error("resumes nested " .. CO0 .. " deep before the histories, " .. c1 .. " deep after them", 0) end
+local co = coroutine.wrap(function(a) local b = coroutine.yield(a + 1); return b * 2 end)
 assert(co(1) == 2 and co(21) == 42)
 local function nest(k) if k == 0 then return 0 end; return 1 + coroutine.wrap(nest)(k - 1) end
 assert(nest(120) == 120)
 local t; t = setmetatable({}, {__index = function(_, k) if k == 150 then return 0 end; return 1 + t[k + 1] end}); assert(t[1] == 149)
 assert(select("#", pcall(error, "x")) == 2 and (string.gsub("ab", "%w", function(c) return c:upper() end)) == "AB")`); err != nil {
-						return "follow-up chunk failed: " + short(err.Error(), 300)
-					}
-					return ""
-				})
-				addGoCase(w, "history-"+cx.name, map[string]any{"api": "bookkeeping-after-history", "event": ev.name, "context": cx.name, "options": o.name, "n": n, "src": src},
-					obs, what, nil, fmt.Sprintf("bookkeeping after %d contained errors of kind %q (%s, options %s)", n, ev.name, cx.name, o.name))
-			}
+							return "follow-up chunk failed: " + short(err.Error(), 300)
+						}
+						return ""
+					})
+				}
+				sink.add("history-"+cx.name, map[string]any{"api": "bookkeeping-after-history", "event": "follow-up", "context": cx.name, "options": o.name},
+					map[string]any{}, what, nil, fmt.Sprintf("follow-up chunk after all histories (%s, options %s)", cx.name, o.name))
+				L.Close()
+			})
 		}
 	}
 }
@@ -673,8 +778,25 @@ func raisedValues(w *lib.Writer) {
 }
 
 func wave5(w *lib.Writer, tier string, seed uint64) {
+	t0 := time.Now()
+	cpu := func() time.Duration {
+		var ru syscall.Rusage
+		syscall.Getrusage(syscall.RUSAGE_SELF, &ru)
+		return time.Duration(ru.Utime.Nano() + ru.Stime.Nano())
+	}
+	c0 := cpu()
+	lap := func(name string) {
+		if os.Getenv("C05_TIMING") != "" {
+			fmt.Fprintf(os.Stderr, "wave5 %s: wall %v cpu %v\n", name, time.Since(t0), cpu()-c0)
+		}
+		t0, c0 = time.Now(), cpu()
+	}
 	handlerAtLimits(w)
+	lap("handlerAtLimits")
 	handlerLadder(w)
+	lap("handlerLadder")
 	bookkeepingAfter(w, tier, seed)
+	lap("bookkeepingAfter")
 	raisedValues(w)
+	lap("raisedValues")
 }
